@@ -13,6 +13,7 @@ func (rn *runner) startIndexWatch() {}
 func genC16(r *simcore.Rand, tier string) any {
 	p := &Plan{Check: "C16", K: genKnobs(r)}
 	p.K.Indexing = false
+	p.OrphanOK = r.Bool(0.25)
 	single := r.Bool(0.35)
 	nops := r.Range(8, 60)
 	if tier == "thorough" {
